@@ -16,6 +16,8 @@ pub fn sizes(r: &mut Rng, thorough: bool) -> Vec<usize> {
     v.extend(1785..=1800);
     if thorough { for &k in &[4095usize, 4096] { v.extend_from_slice(&[7 * k - 1, 7 * k, 7 * k + 1]); } v.extend(28665..=28672); }
     else { v.extend_from_slice(&[28666, 28672]); }
+    // sizes around which 16-bit arithmetic on byte counts goes wrong (len * 8, len * 7, len * 3 wrap; bit 13 / 14 set) - large but not maximal
+    v.extend_from_slice(if thorough { &[4681usize, 8191, 8192, 8193, 9362, 9363, 9364, 13107, 13108, 16383, 16384, 16385, 21845, 21846][..] } else { &[8192usize, 9363, 16384, 21846][..] });
     for _ in 0..(if thorough { 3000 } else { 700 }) { let bits = r.range(1, if thorough { 15 } else { 12 }); v.push(r.below(1 << bits) as usize % 28673); }
     v
 }
